@@ -119,6 +119,17 @@ def run(ctx):
                 # zip of the two full iterators
                 zs = [s for s in subterms(v) if s[0] == "zip"]
                 okm = okm and len(zs) == 1 and {repr(zs[0][1]), repr(zs[0][2])} == {repr(("field", selfp, field)), repr(("field", otherp, field))}
+        pem = PathEnumerator(m, prog, ctx.summ)
+        nret = nskip = 0
+        for p in pem.paths():
+            if p.exit_kind != "return":
+                continue
+            nret += 1
+            if not [e for e in p.events if e["kind"] == "write" and self_field(e) == field and e["how"] == "store"]:
+                nskip += 1
+        if nskip:
+            okm = False
+            desc = "%d of %d returning paths skip the combination; " % (nskip, nret) + desc
         ctx.check(okm, "R06-merge-cellwise", key, m, "merge combines self.%s and other.%s cell by cell over the full length (%s)" % (field, field, desc[:100]),
                   "merge does not combine self.%s with other.%s cell-wise over their full length: %s" % (field, field, desc[:200]))
 
